@@ -130,6 +130,7 @@ type verifShapeOK struct {
 	H    Secret    `setec:"h"`
 	U    verifBin  `setec:"u"`
 	P    *verifBin `setec:"p"`
+	J    string    `setec:"json"` // a secret that happens to be called "json": a name, not the json verb
 	verifInner
 	other int `json:"other"`
 }
@@ -144,13 +145,19 @@ type verifShapeEmptyNameVerb struct {
 	A []byte            `setec:"a"`
 	J map[string]string `setec:",json"`
 }
+type verifShapeNamedJSONBadType struct {
+	X float64 `setec:"json"`
+}
 type verifShapeNoTags struct {
 	A []byte
 }
 
 func verifHarnessC20Parse() {
 	verifEnvReset()
-	switch nondetChoice("shape", 7) {
+	switch nondetChoice("shape", 8) {
+	case 7:
+		_, err := ParseFields(&verifShapeNamedJSONBadType{}, "pfx")
+		assert("unsupported-type-rejected-also-when-the-name-reads-json", err != nil)
 	case 0:
 		_, err := ParseFields(&verifShapeBadType{}, "pfx")
 		assert("unsupported-field-type-rejected", err != nil)
@@ -176,8 +183,8 @@ func verifHarnessC20Parse() {
 		f, err := ParseFields(&t, "pfx")
 		assert("supported-shape-accepted", and(err == nil, f != nil))
 		names := f.Secrets()
-		assert("requested-names-are-prefix-slash-name-per-tagged-field", and(len(names) == 6,
-			names[0] == "pfx/b", names[1] == "pfx/s", names[2] == "pfx/h", names[3] == "pfx/u", names[4] == "pfx/p", names[5] == "pfx/embedded"))
+		assert("requested-names-are-prefix-slash-name-per-tagged-field", and(len(names) == 7,
+			names[0] == "pfx/b", names[1] == "pfx/s", names[2] == "pfx/h", names[3] == "pfx/u", names[4] == "pfx/p", names[5] == "pfx/json", names[6] == "pfx/embedded"))
 		// populate from a store holding arbitrary values
 		client := &verifClient{}
 		s := &Store{client: client, logf: verifLogf, timeNow: verifTimeNow}
@@ -198,6 +205,7 @@ func verifHarnessC20Parse() {
 		assert("binary-unmarshaler-value", bytesEq(t.U.got, vals["pfx/u"]))
 		assert("binary-unmarshaler-pointer-allocated", and(t.P != nil, bytesEq(t.P.got, vals["pfx/p"])))
 		assert("embedded-field", t.E == string(vals["pfx/embedded"]))
+		assert("a-secret-named-json-is-held-unaltered", t.J == string(vals["pfx/json"]))
 		assert("untagged-untouched", and(t.Skip == 7, t.other == 0))
 		assert("no-request", client.requests == 0)
 	}
